@@ -144,6 +144,9 @@ class C02(Check):
             for k in range(0, self.K + 1):
                 for combo in itertools.combinations(range(len(paths)), k):
                     cs.append({"kind": "combo", "t": name, "paths": list(combo)})
+        for v1 in (False, True):
+            for order in (0, 1):
+                cs.append({"kind": "sequence", "v1": v1, "order": order})
         return cs
 
     def apply(self, name, devs):
@@ -178,6 +181,8 @@ class C02(Check):
         if case["kind"] == "one":
             self.eval_doc(json.loads(case["doc"]), case["v1"], case["pending"], ("replay",), stats, vs)
             return vs
+        if case["kind"] == "sequence":
+            return self.sequence(case, stats)
         if case["kind"] == "nonobject":
             for val in (None, True, False, 0, 5, -1.5, "", "sign", [], [{"command": "version"}],
                         ["command", "version"]):
@@ -196,6 +201,46 @@ class C02(Check):
                 continue
             for pending in ((False, True) if len(paths) <= 1 or self.thorough else (False,)):
                 self.eval_doc(doc, v1, pending, (name, tuple(paths)), stats, vs)
+        return vs
+
+    def sequence(self, case, stats):
+        """every single-deviation document of the mode's templates one after the other on ONE
+        protocol object: verdict and device contact must equal those on a fresh object (the
+        classification of a request may not depend on the requests before it)"""
+        vs = []
+        v1 = case["v1"]
+        docs = []
+        for name, (t, tv1) in self.templates.items():
+            if tv1 != v1:
+                continue
+            for p in self.paths_for(name):
+                for val in self.M[p]:
+                    d = self.apply(name, [(p, val)])
+                    if d is not None:
+                        docs.append(d)
+        if case["order"]:
+            docs.reverse()
+
+        def one(proto, w, doc):
+            base = len(w.log)
+            reply, exc = harness.handle_request(proto, copy.deepcopy(doc))
+            return reply, exc, len(w.log) > base
+        fresh = []
+        for d in docs:
+            w = World(PowHsm(seed=b"c02"))
+            fresh.append(one(harness.make_protocol(w, v1=v1), w, d))
+        w = World(PowHsm(seed=b"c02"))
+        proto = harness.make_protocol(w, v1=v1)
+        for k, d in enumerate(docs):
+            stats.evaluations += 1
+            got = one(proto, w, d)
+            stats.observe(("sequence", v1, got == fresh[k], got[0].get("errorcode") if isinstance(got[0], dict) else None))
+            if got != fresh[k]:
+                vs.append(Violation("C02", "C02:verdict-depends-on-history:%s" % (d.get("command") if isinstance(d.get("command"), str) else "?"),
+                                    dict(case, upto=k), None,
+                                    {"doc": json.dumps(d)[:300], "reply": got[0], "exc": got[1], "contacted": got[2]},
+                                    {"reply_on_fresh_object": fresh[k][0], "contacted": fresh[k][2]}, "history"))
+                break
         return vs
 
     def eval_doc(self, doc, v1, pending, desc, stats, vs):
